@@ -402,6 +402,7 @@ def judge(chk, pid, c):
     flat = [o for ctx in c.contexts for o in ctx]
     ghost = ghost_init(c.init)
     prev_model = {"tab": c.init["tab"], "data": c.init["data"]}
+    diverged = False
     for i, (s, m) in enumerate(zip(c.steps, c.msteps)):
         op = flat[i]
         d = s["disk"]
@@ -491,10 +492,10 @@ def judge(chk, pid, c):
         if found:
             chk.violation("%s: %s [%s]" % (pid, found, label), rep, True, key=finding_key(pid, c, found))
             return
-        if differs:
+        if differs and not diverged:
             chk.violation("%s: correspondence broken: %s [%s]" % (pid, differs, label),
                           dict(rep, correspondence="coq/Model/Container.v step vs basictdf.py", theorem="Properties/%s.v" % pid), False)
-            return
+            diverged = True         # the model has left the code's path: judge the rest with the oracle alone
 
 
 def finding_key(pid, c, found):
@@ -644,7 +645,7 @@ def run(chk, pid):
                     free = s["before"]["n"] - len(live)
                     chk.count("remove:%s live block, %s unused after" % (where, "0" if free == 0 else "1" if free == 1 else "many"))
             judge(chk, pid, c)
-            if len(chk.violations) >= 5:
+            if chk.n_found() >= 3:
                 return
 
 
